@@ -94,9 +94,25 @@ theorem prod_size (f : Fmt) (k : Nat) :
     Gen.prodSize f.signed f.nword f.nint f.nfrac k = fmtT (prodFmt f k) := by
   unfold Gen.prodSize fmtT prodFmt; tie_tac
 
-theorem cumprod_size (f : Fmt) (k : Nat) :
-    Gen.cumprodSize f.signed f.nword f.nint f.nfrac k = fmtT (prodFmt f k) := by
-  unfold Gen.cumprodSize fmtT prodFmt; tie_tac
+theorem cumprod_word_nonneg (f : Fmt) (k : Nat) (hk : 1 ≤ k) :
+    0 ≤ max ((f.nword : Int) + cumprodFrac f k - f.nfrac) ((k : Int) * f.nword + cumprodFrac f k - k * f.nfrac) := by
+  unfold cumprodFrac
+  have hk' : (1 : Int) ≤ k := by exact_mod_cast hk
+  split
+  · rename_i h
+    have : 0 ≤ ((k : Int) - 1) * f.nfrac := Int.mul_nonneg (by omega) h
+    have e : (f.nword : Int) + (k : Int) * f.nfrac - f.nfrac = f.nword + ((k : Int) - 1) * f.nfrac := by ring
+    exact le_trans (by rw [e]; omega) (le_max_left _ _)
+  · exact le_trans (by omega) (le_max_left _ _)
+
+theorem cumprod_size (f : Fmt) (k : Nat) (hk : 1 ≤ k) :
+    Gen.cumprodSize f.signed f.nword f.nint f.nfrac k = fmtT (cumprodFmt f k) := by
+  have h0 := cumprod_word_nonneg f k hk
+  unfold Gen.cumprodSize fmtT cumprodFmt
+  have hF : (if decide (f.nfrac ≥ 0) = true then (k : Int) * f.nfrac else f.nfrac) = cumprodFrac f k := by
+    unfold cumprodFrac; simp
+  simp only [hF, Fmt.nint, Int.toNat_of_nonneg h0]
+  refine Prod.ext rfl (Prod.ext ?_ (Prod.ext ?_ rfl)) <;> simp <;> ring_nf
 
 theorem dot_size (x y : Fmt) (k : Nat) :
     Gen.dotSize x.signed x.nword x.nint x.nfrac y.signed y.nword y.nint y.nfrac k = fmtT (dotFmt x y k) := by
